@@ -50,7 +50,7 @@ def switches(ctx, body):
     for bb in sorted(c.reach):
         t = body.blocks[bb]["term"]
         if t and t["k"] == "switch":
-            r.append((bb, t, R.operand(t["discr"])))
+            r.append((bb, t, R.discr(bb)))
     return r
 
 
@@ -93,7 +93,7 @@ def enum_switches(ctx, body):
                 vmap[v["name"]] = v["discr"]
             elif not oth_unreach:
                 vmap[v["name"]] = "otherwise"
-        out.append((bb, t, R.place(pl), adt, vmap))
+        out.append((bb, t, R.place(pl, R.term_at(bb)), adt, vmap))
     return out
 
 
